@@ -174,8 +174,8 @@ PLAN["C14"] = dict(
     rule=AUTO_GEN + "; built twice (A kept, B pruned). Non-trivial = at least one unreachable state is removed, or the automaton has >= 3 states of which >= 2 have both explicit transitions and a default (sparse rows that share the compact table); distinct = digest of the source.",
     oracle="reference reachability by BFS through next(); after remove_unreachable_states: num_states = |reach|, a lock-step walk from the initial states is a bijection reach(A) <-> states(B) preserving finality and every transition, language unchanged (product with the reference DFA); combined_char_partition: all break-point characters that fall in one class have identical next() in every state; pick_alphabet hits every class exactly once; compile_successors().eval(id, i) = next(state, alphabet[i]).id for EVERY cell; edges(s) = one pair per range plus one for the default, each equal to next/class_next; num_states/num_final_states/final_states/ids consistent with states()",
     assumptions=AUTO_ASSUME,
-    quick=dict(proptest={"rel": (12, 25000), "dbg": (4, 6000)}),
-    thorough=dict(proptest={"rel": (16, 200000), "dbg": (8, 50000)}),
+    quick=dict(enum={"rel": 3, "dbg": 3}, proptest={"rel": (12, 25000), "dbg": (4, 6000)}),
+    thorough=dict(enum={"rel": 3, "dbg": 3}, proptest={"rel": (16, 200000), "dbg": (8, 50000)}),
 )
 
 PLAN["C07"] = dict(
